@@ -329,7 +329,10 @@ def run(ctx):
                        pre2 + ".in", pre2 + ".impl")
 
     pre3 = ctx.path("route")
-    _, dt = vf.run_driver(["globroute", "-out", pre3, "-seed", str(ctx.seed), "-tier", ctx.tier, "-clean", clean])
+    from lib.machine import code_flags
+    # bit 0: clean_first, bit 1: ingress paths match on segment boundaries (lib/code_flags.json ingress_segment_prefix)
+    clean_seg = str(int(clean) + (2 if code_flags().get("ingress_segment_prefix") else 0))
+    _, dt = vf.run_driver(["globroute", "-out", pre3, "-seed", str(ctx.seed), "-tier", ctx.tier, "-clean", clean_seg])
     ctx.timings["globroute"] = round(dt, 2)
     ctx.correspondence("route: real router (wildcard handler, auto-login on, no session; recording upstream) vs handler_unauth",
                        pre3 + ".in", pre3 + ".impl")
